@@ -19,6 +19,10 @@ def run(ctx, res):
     # UTF-8 length (C01.entry, shared rule)
     res.rules_run.append("C05.entry (every entry point starts the parser at offset 0, its adaptors record len_utf8 for every character, and the code map returned is the parser's)")
     C01.entry_rule(ctx, res, rule="C05.entry", skip_roots=("root_from_str",))  # FromStr returns no code map
+    # "in pre-order, i.e. the order in which traversal yields them": the traversal side of that clause
+    from . import C11
+    res.rules_run.append("C05.traverse (Value::traverse numbers from 0, pops one fragment and pushes its sub-fragments reversed; the sub-fragments of an entry are key then value, forwards, and value then key backwards: the traversal is the pre-order in which the parser reserves the entries)")
+    C11.traverse_rule(ctx, res, rule="C05.traverse")
 
 
 def position_writers(ctx, res):
